@@ -29,15 +29,103 @@ impl Config for CfgD {
     type Address = Addr;
 }
 
+/// A five-byte input (1 + 2 + 2 bytes under bincode) whose redundant fields are functions of the
+/// value byte: a session that splits, joins, delta-encodes or predicts multi-byte inputs wrongly
+/// hands the game an input whose fields no longer agree. The default (all zero) is "no input".
+#[derive(Clone, Copy, Debug, PartialEq, Eq, Default, Serialize, Deserialize)]
+pub struct Wide {
+    pub v: u8,
+    pub a: u16,
+    pub b: [u8; 2],
+}
+
+impl Wide {
+    pub fn of(v: u8) -> Self {
+        if v == 0 {
+            return Self::default();
+        }
+        Self {
+            v,
+            a: (u16::from(v) * 257) ^ 0x5AA5,
+            b: [v.wrapping_mul(31).wrapping_add(7), !v],
+        }
+    }
+}
+
+#[derive(Debug)]
+pub struct CfgWR;
+impl Config for CfgWR {
+    type Input = Wide;
+    type InputPredictor = PredictRepeatLast;
+    type State = GameSt;
+    type Address = Addr;
+}
+
+#[derive(Debug)]
+pub struct CfgWD;
+impl Config for CfgWD {
+    type Input = Wide;
+    type InputPredictor = PredictDefault;
+    type State = GameSt;
+    type Address = Addr;
+}
+
 /// What the harness needs to know about a config beyond `ggrs::Config`.
-pub trait HCfg: Config<Input = u8, State = GameSt, Address = Addr> + std::fmt::Debug {
+pub trait HCfg: Config<State = GameSt, Address = Addr> + std::fmt::Debug {
     const PRED: Pred;
+    /// the input an application hands over for the program value `v`
+    fn enc(v: u8) -> Self::Input;
+    /// the program value of an input handed to the game, and whether the input is intact
+    fn dec(i: &Self::Input) -> (u8, bool);
+    fn show(i: &Self::Input) -> String;
 }
 impl HCfg for CfgR {
     const PRED: Pred = Pred::RepeatLast;
+    fn enc(v: u8) -> u8 {
+        v
+    }
+    fn dec(i: &u8) -> (u8, bool) {
+        (*i, true)
+    }
+    fn show(i: &u8) -> String {
+        format!("{i}")
+    }
 }
 impl HCfg for CfgD {
     const PRED: Pred = Pred::Default;
+    fn enc(v: u8) -> u8 {
+        v
+    }
+    fn dec(i: &u8) -> (u8, bool) {
+        (*i, true)
+    }
+    fn show(i: &u8) -> String {
+        format!("{i}")
+    }
+}
+impl HCfg for CfgWR {
+    const PRED: Pred = Pred::RepeatLast;
+    fn enc(v: u8) -> Wide {
+        Wide::of(v)
+    }
+    fn dec(i: &Wide) -> (u8, bool) {
+        (i.v, *i == Wide::of(i.v))
+    }
+    fn show(i: &Wide) -> String {
+        format!("{i:?}")
+    }
+}
+impl HCfg for CfgWD {
+    const PRED: Pred = Pred::Default;
+    fn enc(v: u8) -> Wide {
+        Wide::of(v)
+    }
+    fn dec(i: &Wide) -> (u8, bool) {
+        (i.v, *i == Wide::of(i.v))
+    }
+    fn show(i: &Wide) -> String {
+        format!("{i:?}")
+    }
 }
 
 #[derive(Clone, Copy, Debug, PartialEq, Eq, Serialize, Deserialize)]
